@@ -109,6 +109,12 @@ RembEncTags(brs, out) ==
   ELSE (IF \E i \in 1..Len(brs) : FiniteNonNeg(brs[i]) /\ (~out[i].ok \/ [ex |-> out[i].ex, m |-> out[i].m] # RembPair(brs[i])) THEN {"C14:encode"} ELSE {})
        \cup (IF \E i \in 1..Len(brs) : IsNegative(brs[i]) /\ out[i].ok THEN {"C14:negative_accepted"} ELSE {})
 
+\* C14 on every buffer the library accepts as REMB, valid or not: the count octet equals the
+\* number of SSRC entries returned
+Remb14Tags(b, res) ==
+  IF res.panic \/ res.slow \/ ~res.ok \/ Len(b) < 20 THEN {}
+  ELSE IF Len(res.out.ssrcs) # At(b, 16) THEN {"C14:count_octet_mismatch"} ELSE {}
+
 \* C13 on every buffer the library accepts as TransportLayerCC, valid or not:
 \* an independent expansion of the raw bytes inside the declared length.
 \* Chunks or deltas that do not fit the declared length must be refused; if
@@ -124,7 +130,7 @@ Twcc13Tags(b, res) ==
                 cp == ChunkPassL(w, 20, U16At(w, 14), << >>, << >>, TRUE) IN
             IF ~cp.fits THEN {"C13:chunks_outside_declared_length"}
             ELSE IF ~cp.clean THEN {}
-            ELSE LET dp == DeltaPass(w, cp.pos, cp.dts, << >>) IN
+            ELSE LET dp == DeltaPass(w, cp.pos, cp.runs, << >>) IN
                  IF ~dp.ok THEN {"C13:deltas_outside_declared_length"}
                  ELSE (IF res.out.chunks # cp.chunks THEN {"C13:chunks"} ELSE {})
                       \cup (IF res.out.deltas # dp.deltas THEN {"C13:deltas"} ELSE {})
